@@ -6,7 +6,8 @@ PID = "C13"
 RULE = ("non-trivial = a nested 2-D/3-D/spherical case whose limit pairs are pairwise distinct (disjoint intervals per axis, so that a swapped "
         "argument or a swapped pair of limits is visible) with an integrand that is not symmetric under exchange of its arguments, or a 1-D case "
         "with reversed or equal limits, an explicit method_parameter, an unknown method name or a user function that is itself defined through an integral "
-        "(re-entrant call of the library), or a session of two or more calls made one after the other by one process; distinct by case text")
+        "(re-entrant call of the library), or a session of two or more calls made one after the other by one process, or a call made before main "
+        "(during the static initialisation of the caller's translation unit); distinct by case text")
 LEVEL_TEXT = ("Theorems (Coq, all inputs, over the reals): the dispatch of Integrate(func,a,b,method,parameter) — each of the six names selects its back end "
               "with the stated parameter default (Gauss-Kronrod depth 5, Gauss-Legendre_2 30 points), every other name terminates when the limits differ, equal "
               "limits give 0 without a call of any back end or of the integrand, reversed limits negate the result; if the selected back end is exact on the "
@@ -156,6 +157,27 @@ class Fac:
 
     def ann(self): return self.name + " " + " ".join(hx(x) for x in self.p)
 
+    def node_slack(self, a, b):
+        """the abscissae are doubles: a node near x is off by up to ulp(x)/2 from the exact node (and is formed with two or three roundings), which moves
+        the integrand by |g'| ulp(x); only visible far from the origin"""
+        return 3 * 2.0 ** -53 * max(abs(a), abs(b)) * self.dsup(a, b) * abs(b - a)
+
+    def curved(self):
+        """False when the factor is a polynomial of degree <= 1 (on which the trapezoidal rule is exact to rounding)"""
+        return not (self.name == "affine" or (self.name == "mono" and int(self.p[1]) <= 1))
+
+
+class SFac(Fac):
+    """a factor living on its own scale: g(v) = c base(v / s), with c and s powers of two (so that limits s a0, s b0 and the quotient v / s are exact)"""
+    def __init__(self, c, s, base): self.name = "scl"; self.p = (float(c), float(s)); self.base = base
+    def text(self, v): return f"* c {hx(self.p[0])} {self.base.text(f'/ {v} c {hx(self.p[1])}')}"
+    def g(self, t): return self.p[0] * self.base.g(t / self.p[1])
+    def integral(self, a, b): return (self.p[0] * self.p[1]) * self.base.integral(a / self.p[1], b / self.p[1])
+    def l1(self, a, b): return (self.p[0] * self.p[1]) * self.base.l1(a / self.p[1], b / self.p[1])
+    def node_slack(self, a, b): return (self.p[0] * self.p[1]) * self.base.node_slack(a / self.p[1], b / self.p[1])
+    def curved(self): return self.base.curved()
+    def ann(self): return "scl " + " ".join(hx(x) for x in self.p) + " " + self.base.ann()
+
 
 NPAR = {"dampcos": 2, "expdec": 1, "rational": 1, "gauss": 2, "mono": 2, "affine": 2}
 
@@ -165,8 +187,11 @@ def parse_ann(tokens):
     kind = tokens[0]; facs = []; k = 1
     if kind.endswith("@"): k = 5
     while k < len(tokens):
+        scl = None
+        if tokens[k] == "scl": scl = (float.fromhex(tokens[k + 1]), float.fromhex(tokens[k + 2])); k += 3
         n = tokens[k]; m = NPAR[n]
-        facs.append(Fac(n, *[float.fromhex(x) for x in tokens[k + 1:k + 1 + m]])); k += 1 + m
+        f = Fac(n, *[float.fromhex(x) for x in tokens[k + 1:k + 1 + m]]); k += 1 + m
+        facs.append(SFac(scl[0], scl[1], f) if scl else f)
     return kind, facs
 
 
@@ -393,6 +418,146 @@ def generate(rng, tier):
     cs += gen_structured(rng, big, P)
     cs += gen_angles(rng, big, P)
     cs += gen_sessions(rng, big, P)
+    cs += gen_trapezoid_levels(rng, big)
+    cs += gen_scales(rng, big, P)
+    cs += gen_preinit(rng, big, P)
+    return cs
+
+
+# ---- the nested trapezoidal rule with a curved level: three (two) fully refined levels cost 2049^3 (2049^2) evaluations, one curved level among
+#      levels of degree <= 1 costs 2049 * 17 * 17: the curved level at every position (outermost, middle, innermost), every orientation; each is compared
+#      bit for bit with boost's rule nested level by level by the harness, and with the closed form at the accuracy of ONE level (the others are exact)
+def gen_trapezoid_levels(rng, big):
+    cs = []
+    for dd in (2, 3):
+        for k in range(dd):
+            for o in (range(2 ** dd) if big else [rng.randrange(2 ** dd)]):
+                lims = [limits(rng, j, bool(o >> j & 1)) for j in range(dd)]
+                facs = [rand_fac(rng, *lims[j]) if j == k else rand_fac(rng, *lims[j], affine=True) for j in range(dd)]
+                if not facs[k].curved(): facs[k] = Fac("expdec", rng.uniform(0.8, 1.5))
+                p = rng.choice([0, 0, 7])
+                flat = " ".join(hx(x) for lm in lims for x in lm)
+                cs.append(Case(f"nested{dd}d Trapezoidal {p} {flat} {product_text(facs, 'xyz'[:dd])} # nd " + " ".join(f.ann() for f in facs),
+                               (f"nested{dd}d", "Trapezoidal", "one-curved-level", "curved-" + "xyz"[k], "o%d" % o)))
+    return cs
+
+
+# ---- axes that live on scales of their own: limits s_k a, s_k b with s_k = 2^e on a geometric ladder from 2^-900 to 2^900, the factor of the axis
+#      g(v / s_k) with amplitude 1 or 1 / s_k (a density), chosen so that the integrand, every partial integral and the result are ordinary numbers:
+#      every method in one dimension; in two and three dimensions the scales of the axes mixed (all tiny - the product of the widths underflows although no
+#      width does and the integral is an ordinary number -, all huge - it overflows -, tiny next to huge, one axis of order one), every orientation
+SCALE_LADDER = (30, 100, 300, 500, 700, 900)
+
+
+def scale_feasible(es, ks):
+    """the integrand (product of amplitudes), every partial integral (amplitude * scale on the integrated axes) and the result stay within 2^+-960"""
+    sums = [0]
+    for e, k in zip(es, ks): sums = [t + u for t in sums for u in (0, k, k + e)]
+    return all(abs(t) <= 960 for t in sums)
+
+
+def pick_amplitudes(rng, es):
+    for _ in range(200):
+        ks = [rng.choice([0, -e, -e, rng.choice([-1, 1]) * rng.choice([0, 10, 100])]) for e in es]
+        if scale_feasible(es, ks): return ks
+    return None
+
+
+def scale_patterns(rng, dd):
+    L = SCALE_LADDER
+    small = lambda: -rng.choice(L[2:]); huge = lambda: rng.choice(L[2:]); mid = lambda: rng.choice([-1, 1]) * rng.choice(L[:2] + (0,))
+    jo = rng.randrange(dd)
+    pats = {"all-tiny": [small() for _ in range(dd)], "all-huge": [huge() for _ in range(dd)],
+            "tiny-huge": [small() if j % 2 == 0 else huge() for j in range(dd)], "huge-tiny": [huge() if j % 2 == 0 else small() for j in range(dd)],
+            "one-ordinary": [mid() if j == jo else rng.choice([small(), huge()]) for j in range(dd)]}
+    # all tiny: make sure that the product of the widths is below the smallest subnormal while every product of fewer widths is representable
+    if dd == 2: pats["all-tiny"] = rng.choice([[-600, -500], [-500, -700], [-900, -300], [-300, -900], [-700, -700]])
+    if dd == 3: pats["all-tiny"] = rng.choice([[-400, -400, -400], [-300, -500, -400], [-500, -100, -500], [-600, -500, -30]])
+    if dd == 2: pats["all-huge"] = rng.choice([[600, 500], [900, 300], [700, 700], [500, 600]])
+    if dd == 3: pats["all-huge"] = rng.choice([[400, 400, 400], [300, 500, 400], [600, 500, 30]])
+    return pats
+
+
+def gen_scales(rng, big, P):
+    cs = []
+
+    def axis(e, k, method, affine=False, poly=False):
+        s = 2.0 ** e; c = 2.0 ** k
+        a0, b0 = limits(rng, rng.randrange(3), rng.random() < 0.6)
+        if rng.random() < 0.2 and method != "Tanh-Sinh": a0, b0 = a0 - 3.0, b0 - 3.0
+        base = rand_fac(rng, a0, b0, positive=(method == "Adaptive-Simpson"), affine=affine, poly=poly)
+        return (a0 * s, b0 * s), SFac(c, s, base)
+
+    def par(method, cheap):
+        if method == "Gauss-Kronrod": return rng.choice([1, 2]) if cheap else rng.choice([0, 1, 3])      # narrow intervals (in absolute terms) take boost's rule to its full depth
+        if method == "Gauss-Legendre_2": return rng.choice([0, 20, 24, 31])
+        return P(method, rng.random() < 0.3)
+
+    # one dimension: the whole ladder, both signs
+    for method in METHODS:
+        es = [sg * e for e in SCALE_LADDER for sg in (-1, 1)]
+        for e in (es if big else rng.sample(es[:4], 1) + rng.sample(es[4:8], 1) + rng.sample(es[8:], 2)):
+            ks = pick_amplitudes(rng, [e])
+            lim, f = axis(e, ks[0], method)
+            p = par(method, False)
+            cs.append(Case(f"named1d {method} {p} {hx(lim[0])} {hx(lim[1])} {f.text('x')} # 1d {f.ann()}", ("named1d", method, "scaled-axis", "tiny" if e < 0 else "huge")))
+    # two and three dimensions
+    for dd in (2, 3):
+        for method in METHODS:
+            if dd == 3 and method in ("Gauss-Kronrod", "Tanh-Sinh") and not big: continue
+            names = list(scale_patterns(rng, dd))
+            if not big: names = ["all-tiny"] + rng.sample(names[1:], 1 if dd == 2 else 0)
+            for name in names * (2 if big else 1):
+                es = scale_patterns(rng, dd)[name]
+                ks = pick_amplitudes(rng, es)
+                if ks is None: continue
+                curved = rng.randrange(dd) if method == "Trapezoidal" and dd == 2 and rng.random() < 0.5 else None
+                # (three nested levels of the adaptive Simpson rule: polynomials, as everywhere in three dimensions)
+                axes = [axis(es[j], ks[j], method, affine=(method == "Trapezoidal" and j != curved), poly=(method == "Adaptive-Simpson" and dd == 3)) for j in range(dd)]
+                p = par(method, True)
+                if method == "Gauss-Legendre_2" and dd == 3: p = rng.choice([20, 24])
+                if method == "Gauss-Kronrod" and dd == 3: p = 1
+                flat = " ".join(hx(x) for lm, _ in axes for x in lm)
+                facs = [f for _, f in axes]
+                cs.append(Case(f"nested{dd}d {method} {p} {flat} {product_text(facs, 'xyz'[:dd])} # nd " + " ".join(f.ann() for f in facs),
+                               (f"nested{dd}d", method, "scaled-axes", name)))
+    return cs
+
+
+# ---- calls made before main: a caller's translation unit that is linked in front of the library and initialises a namespace-scope object with an
+#      integral (a normalisation constant, a tabulated function) calls the library before the namespace-scope objects of the library's own translation
+#      units are initialised; every method name, default and explicit method_parameter, every entry point, an unknown name, equal limits
+def gen_preinit(rng, big, P):
+    cs = []
+    for rep in range(3 if big else 1):
+        for method in METHODS:
+            for explicit in (False, True):
+                p = P(method, explicit)
+                a, b = limits(rng, rng.randrange(3), rng.random() < 0.6)
+                f = rand_fac(rng, a, b, positive=(method == "Adaptive-Simpson"))
+                cs.append(Case(f"preinit named1d {method} {p} {hx(a)} {hx(b)} {f.text('x')} # 1d {f.ann()}", ("preinit", "named1d", method, "p0" if p == 0 else "p")))
+            p = P(method, rng.random() < 0.3)
+            lims = [limits(rng, k, rng.random() < 0.6) for k in range(2)]
+            facs = [rand_fac(rng, *lims[k], positive=(method == "Adaptive-Simpson"), affine=(method == "Trapezoidal")) for k in range(2)]
+            flat = " ".join(hx(x) for lm in lims for x in lm)
+            cs.append(Case(f"preinit nested2d {method} {p} {flat} {product_text(facs, 'xy')} # nd {facs[0].ann()} {facs[1].ann()}", ("preinit", "nested2d", method, "p0" if p == 0 else "p")))
+            if method in ("Tanh-Sinh", "Gauss-Kronrod") and not big: continue
+            p = P(method, rng.random() < 0.3)
+            if method == "Gauss-Legendre_2" and p > 31: p = 24
+            if rng.random() < 0.5:
+                lims = [limits(rng, k, rng.random() < 0.6) for k in range(3)]
+                facs = [rand_fac(rng, *lims[k], poly=(method == "Adaptive-Simpson"), affine=(method == "Trapezoidal")) for k in range(3)]
+                flat = " ".join(hx(x) for lm in lims for x in lm)
+                cs.append(Case(f"preinit nested3d {method} {p} {flat} {product_text(facs, 'xyz')} # nd " + " ".join(f.ann() for f in facs), ("preinit", "nested3d", method, "p0" if p == 0 else "p")))
+            elif method != "Trapezoidal" or big:
+                r1 = rng.uniform(0.1, 1.0); r2 = r1 + rng.uniform(0.5, 1.5); c1 = rng.uniform(-1.0, 0.5); c2 = rng.uniform(c1 + 0.2, 1.0); f1 = rng.uniform(0.0, 4.0); f2 = rng.uniform(f1 + 0.3, 6.28)
+                g = rng.choice([Fac("expdec", rng.uniform(0.3, 1.5)), Fac("rational", rng.uniform(0.1, 2.0))])
+                cs.append(Case(f"preinit spherical {method} {p} " + " ".join(hx(x) for x in (r1, r2, c2, c1, f1, f2)) + f" {radial_text(g)} # sphr {g.ann()}", ("preinit", "spherical", method, "p0" if p == 0 else "p")))
+        f = Fac("expdec", 0.7)
+        a, b = limits(rng, 0, True)
+        cs.append(Case(f"preinit named1d {rng.choice(UNKNOWN)} 0 {hx(a)} {hx(b)} {f.text('x')} # 1d {f.ann()}", ("preinit", "named1d", "unknown-method")))
+        m = rng.choice(METHODS)
+        cs.append(Case(f"preinit named1d {m} 0 {hx(a)} {hx(a)} {f.text('x')} # 1d {f.ann()}", ("preinit", "named1d", "equal-limits")))
     return cs
 
 
@@ -940,10 +1105,8 @@ def exact_and_scale(op, lim, fex, ann):
             ex *= f.integral(a, b); sc *= f.l1(a, b)
         extra = 0.0
         if len(facs) == 1:
-            # the abscissae are doubles: a node near x is off by up to ulp(x)/2 from the exact node (and is formed with two or three roundings), which moves
-            # the integrand by |g'| ulp(x); only visible far from the origin
             a, b = lim
-            extra = 3 * 2.0 ** -53 * max(abs(a), abs(b)) * facs[0].dsup(a, b) * abs(b - a)
+            extra = facs[0].node_slack(a, b)
         if re:
             k, x0, im, ip = re
             a, b = lim[2 * k], lim[2 * k + 1]
@@ -981,6 +1144,11 @@ def dims(op): return {"named1d": 1, "nested2d": 2, "nested3d": 3, "spherical": 3
 
 # ---------------------------------------------------------------- model vs implementation
 def compare(c, io, mo, tol):
+    if c.line.startswith("preinit "):
+        if io == mo: return True, True, ""
+        a, b = io.split(), mo.split()
+        if len(a) < 2 or len(b) < 2: return False, False, f"impl {io[:60]} model {mo[:60]}"
+        return compare_call(c.line.split(" ", 1)[1], " ".join(a[:-1]), " ".join(b[:-1]))
     if not c.line.startswith("session "): return compare_call(c.line, io, mo)
     if io == mo: return True, True, ""
     subs = split_session(c.line); ci, cm = split_out(io), split_out(mo)
@@ -1067,7 +1235,17 @@ def as_false_acceptance(op, lim, ann, val, ex, slack):
     except (OverflowError, ZeroDivisionError, ValueError): return False
 
 
+def inexact_levels(op, method, ann, d):
+    """the number of nesting levels on which the method's accuracy is spent: all of them, except that the trapezoidal rule is exact (to rounding) on a level
+    whose variable enters the integrand through a polynomial of degree <= 1, and on the two angular levels of a radial profile (constant in the angles)"""
+    if method != "Trapezoidal" or not ann: return d
+    if ann[0] in ("1d", "nd"): return sum(1 for f in parse_ann(ann)[1] if f.curved())
+    if ann[0] == "sphr": return 1
+    return d
+
+
 def predicates(c, io):
+    if c.line.startswith("preinit "): return predicates_preinit(c.line, io)
     if not c.line.startswith("session "): return predicates_call(c.line, io)
     out = []
     if io.startswith("CRASH"): return [("CRASH:session", f"the implementation ended with {io} during this sequence of calls")]
@@ -1083,6 +1261,22 @@ def predicates(c, io):
         if tokf(fresh) is None: out.append(("session:fresh-process", where + f"the same call made in a fresh process ended with {fresh}"))
         elif t[0] != fresh and not (math.isnan(tokf(t[0])) and math.isnan(tokf(fresh))):
             out.append(("session:history-dependence", where + f"the result is {tokf(t[0])!r} but the same call made in a process that has made no other call gives {tokf(fresh)!r}"))
+    return out
+
+
+def predicates_preinit(line, io):
+    """a call made before main (during the static initialisation of the caller's translation unit, linked in front of the library): the clauses of the
+    property on its answer, and the answer itself against the one the same call has when it is made from main"""
+    sl = line.split(" ", 1)[1]
+    what = f"made before main, while the namespace-scope objects of the caller's translation unit are initialised ({' '.join(sl.split()[:3])} ...): "
+    if io.startswith("CRASH"): return [("CRASH:preinit", what + f"the implementation ended with {io}")]
+    if io.startswith(("SANITIZER", "TIMEOUT", "HARNESSERR")): return []
+    if io.startswith("EXIT"): return [(sig, what + msg) for sig, msg in predicates_call(sl, io)]
+    t = io.split(); own = " ".join(t[:-1]); late = t[-1]
+    out = [(sig, what + msg) for sig, msg in predicates_call(sl, own)]
+    if tokf(late) is None or tokf(t[0]) is None: out.append(("preinit:shape", what + f"answers {t[0]} / {late}"))
+    elif t[0] != late and not (math.isnan(tokf(t[0])) and math.isnan(tokf(late))):
+        out.append(("preinit:initialisation-order-dependence", what + f"the result is {tokf(t[0])!r} but the same call made from main gives {tokf(late)!r}"))
     return out
 
 
@@ -1147,7 +1341,7 @@ def predicates_call(line, io):
         ex, sc, extra = es
         # accuracy of the method per nesting level, relative to the integral of |f|; rounding of the closed form;
         # accuracy of the inner method when the user's function is itself computed by a quadrature
-        slack = d * acc_of(method) * sc + 1e-13 * sc + extra
+        slack = inexact_levels(op, method, ann, d) * acc_of(method) * sc + 1e-13 * sc + extra
         if not (abs(val - ex) <= slack):
             region = ":tanh-sinh-narrow-interval" if tanh_sinh_narrow(op, method, lim) else \
                      ":adaptive-simpson-false-acceptance" if method == "Adaptive-Simpson" and as_false_acceptance(op, lim, ann, val, ex, slack) else ""
@@ -1156,6 +1350,7 @@ def predicates_call(line, io):
 
 
 def nontrivial(c, io):
+    if c.line.startswith("preinit "): return not io.startswith(("CRASH", "TIMEOUT", "SANITIZER", "HARNESSERR"))
     if c.line.startswith("session "): return len(split_session(c.line)) >= 2 and not io.startswith(("CRASH", "EXIT", "TIMEOUT", "SANITIZER", "HARNESSERR"))
     op, method, p, lim, fex, ann = parse_case(c.line)
     if op == "named1d": return lim[0] >= lim[1] or p != 0 or method not in METHODS or "@" in fex
